@@ -223,6 +223,10 @@ KEY_CTORS = {'key::Key::item': 'item', 'key::Key::tree': 'tree', 'key::Key::upda
              'key::Prefix::all': 'p-all'}
 
 
+NODEID_CTORS = {'node_id::NodeId::item': 'item', 'node_id::NodeId::tree': 'tree', 'node_id::NodeId::updated': 'updated',
+                'node_id::NodeId::metadata': 'metadata', 'node_id::NodeId::version': 'version'}
+
+
 def key_info(t):
     """(kind, index_term, id_term|None) when `t` is built by a Key/Prefix constructor, else None.
     Looks through refs and single-definition temporaries."""
@@ -231,6 +235,10 @@ def key_info(t):
         kind = KEY_CTORS[t[1]]
         idx = t[2][0] if t[2] else None
         idt = t[2][1] if len(t[2]) > 1 else None
+        if kind == 'new' and idt is not None:
+            n = strip(idt)
+            if n[0] == 'call' and n[1] in NODEID_CTORS:
+                return (NODEID_CTORS[n[1]], idx, n[2][0] if n[2] else None)
         return (kind, idx, idt)
     if t[0] == 'agg' and t[1] == 'key::Key':
         d = dict(t[3])
@@ -252,6 +260,8 @@ def strip_all(t):
     if k == 'var':
         return ('var', t[1])
     if k == 'const':
+        if isinstance(t[2], str) and '::promoted[' in t[2]:
+            return ('const', 'promoted:' + t[1])
         return ('const', t[2])
     if k == 'fn':
         return t
